@@ -243,6 +243,9 @@ func c16Run(seed uint64, idx, n int, enabled []string, ops []c16Op, cnt *Counter
 			cnt.Inc(k)
 		}
 	}
+	if len(w.setupErrs) > 0 {
+		inc("setup:step-refused")
+	}
 	v := w.view(w.ctx)
 	if len(v.unknown) > 0 {
 		panic("c16: records of non-actors: " + strings.Join(v.unknown, ","))
@@ -275,6 +278,12 @@ func c16Run(seed uint64, idx, n int, enabled []string, ops []c16Op, cnt *Counter
 		for b := 0; b < w.nacc; b++ {
 			cls, err, cctx := w.attempt(op, b)
 			out.evals++
+			if b == op.P && op.Kind == "earnwd" && cls == ClassOk {
+				eo.dust = w.earnDust(op, eo, v, cctx)
+				if eo.dust {
+					inc("split:earnwd:dust-removed")
+				}
+			}
 			princ := w.isPrincipal(v, op, b)
 			who := "user"
 			if b >= c16NUsers {
@@ -423,7 +432,7 @@ var c16GateSplits = func() []string {
 	}
 	return append(out, "swap:incoming", "swap:outgoing", "vote:member-committee", "vote:token-committee", "repay:closes-cdp",
 		"hardwd:capped-to-record", "savwd:capped-to-record", "block:principal-panic", "postprice:another-principal-accepted",
-		"issue:rate-limited-asset")
+		"issue:rate-limited-asset", "earnwd:dust-removed")
 }()
 
 func runC16(o Opts) (*Result, error) {
